@@ -80,3 +80,25 @@ VENTRY(h_from_files)
     for (int i = 0; i + 1 < nr; i++) vcheck_eq(g.radialSpacing(i), g.radius(i + 1) - g.radius(i), "radial-spacing", i);
     for (int j = 0; j < nt; j++) vcheck_eq(g.angularSpacing(j), g.theta(j + 1) - g.theta(j), "angular-spacing", j);
 }
+
+// "admits the number of levels setup reports" for EVERY grid size: the real chooseNumberOfLevels on a grid object whose
+// node counts are symbolic integers (the function reads nothing else).  Either it throws, or every level but the coarsest
+// can be coarsened (odd number of radial nodes, even number of angles whose half is even) and the coarsest level still has
+// the documented minimum size.   a: max_levels option, upper bound of nr, upper bound of ntheta
+VENTRY(h_level_count)
+{
+    alignas(PolarGrid) static unsigned char gbuf[sizeof(PolarGrid)];
+    PolarGrid* g = reinterpret_cast<PolarGrid*>(gbuf);
+    const int nr = vsym_int("nr", 2, a[1]), nt = vsym_int("ntheta", 2, a[2]);
+    g->nr_ = nr; g->ntheta_ = nt;
+    const int L = levels_for(*g, a[0]);
+    vreach("levels-chosen");
+    vcheck_true(L >= 2, "at-least-two-levels", 0);
+    if (a[0] > 0) vcheck_true(L <= a[0], "level-cap-respected", 0);
+    int cnr = nr, cnt = nt;
+    for (int l = 1; l < L; l++) {
+        vcheck_true((cnr - 1) % 2 == 0 && cnt % 2 == 0 && (cnt / 2) % 2 == 0, "level-coarsenable", l);
+        cnr = (cnr + 1) / 2; cnt = cnt / 2;
+    }
+    vcheck_true(cnr >= 5 && cnt >= 4, "coarsest-level-large-enough", 0);
+}
